@@ -38,6 +38,31 @@ func corpus() []*clusterIn {
 		return listenerIn{Name: name, Port: 80, Protocol: "HTTP", Allowed: &allowedIn{Kinds: kinds, Namespaces: rn}}
 	}
 	var out []*clusterIn
+	// From=Selector with matchLabels AND matchExpressions: both parts must hold. Namespaces
+	// a {env=prod,team=a}, b {env=prod,team=b}, c {team=a}; one listener per operator, one route
+	// per (namespace, listener) so that every decision shows as its own host.
+	{
+		sel := ps("Selector")
+		mk := func(name string, e exprIn) listenerIn {
+			return listenerIn{Name: name, Port: 80, Protocol: "HTTP", Allowed: &allowedIn{Kinds: []kindIn{},
+				Namespaces: &routeNsIn{From: sel, Selector: &selectorIn{Labels: [][2]string{{"env", "prod"}}, Exprs: []exprIn{e}}}}}
+		}
+		c := &clusterIn{Controller: ourController, Stamp: true, Classes: classes,
+			Namespaces: []nsIn{{"a", [][2]string{{"env", "prod"}, {"team", "a"}}}, {"b", [][2]string{{"env", "prod"}, {"team", "b"}}}, {"c", [][2]string{{"team", "a"}}}},
+			Gateways: []gatewayIn{{NS: "a", Name: "gw0", Class: "haproxy", Listeners: []listenerIn{
+				mk("l0", exprIn{Key: "team", Op: "In", Values: []string{"a"}}),
+				mk("l1", exprIn{Key: "team", Op: "NotIn", Values: []string{"a"}}),
+				mk("l2", exprIn{Key: "zone", Op: "Exists", Values: []string{}}),
+				mk("l3", exprIn{Key: "team", Op: "DoesNotExist", Values: []string{}})}}},
+			Services: []serviceIn{svc("a", "s0", 1), svc("b", "s0", 1), svc("c", "s0", 1)}}
+		for _, ns := range []string{"a", "b", "c"} {
+			for i := 0; i < 4; i++ {
+				c.Routes = append(c.Routes, route(ns, fmt.Sprintf("r%d", i), []parentIn{{NS: ps("a"), Name: "gw0", Section: ps(fmt.Sprintf("l%d", i))}},
+					[]string{fmt.Sprintf("%s-l%d.example", ns, i)}, rule(backendIn{Name: "s0", Port: pi(8080)})))
+			}
+		}
+		out = append(out, c)
+	}
 	// the documented minimum; explicit kinds; foreign class; cross-namespace Same / All / Selector; sectionName; weights
 	out = append(out, &clusterIn{Controller: ourController, Stamp: true, Classes: classes, Namespaces: nss,
 		Gateways: []gatewayIn{{NS: "a", Name: "gw0", Class: "haproxy", Listeners: []listenerIn{lis("l0", []kindIn{{Kind: "HTTPRoute"}}, &routeNsIn{From: same})}}},
